@@ -57,7 +57,10 @@ def compositions_symiter(ip, obj):
     n, L, m = obj.f["n"], obj.f["L"], obj.f["m"]
     Ls = z3.simplify(L)
     if not z3.is_int_value(Ls):
-        raise Unsupported("iteration over compositions of symbolic length")
+        # symbolic number of parts: the items are symbolic-length tuples
+        ip.vc.assume(NCOMP(n, L, m) >= 0)
+        return SymIter("compositions", obj, Sym(NCOMP(n, L, m)),
+                       lambda ip_, k: Struct("CompTuple", n=n, L=L, m=m, k=term(k)))
     Lc = Ls.as_long()
     ip.vc.assume(NCOMP(n, L, m) >= 0)
     return SymIter("compositions", obj, Sym(NCOMP(n, L, m)),
@@ -65,6 +68,20 @@ def compositions_symiter(ip, obj):
 
 
 C.STRUCT_SYMITER["Compositions"] = compositions_symiter
+
+
+def comptuple_symiter(ip, obj):
+    """the parts of one composition (symbolic number of parts)"""
+    f = obj.f
+
+    def item(ip_, j):
+        p = COMP(f["n"], f["L"], f["m"], f["k"], term(j))
+        ip_.vc.assume(z3.Implies(z3.And(term(j) >= 0, term(j) < f["L"]), p >= f["m"]))
+        return Sym(p)
+    return SymIter("composition-parts", obj, Sym(f["L"]), item)
+
+
+C.STRUCT_SYMITER["CompTuple"] = comptuple_symiter
 
 
 # --- models of small adcgen helpers -----------------------------------------------
